@@ -33,7 +33,24 @@ fn fmt_ids(ids: &[u64]) -> String {
     format!("[{}{}]", v.join(","), if ids.len() > 40 { ",…" } else { "" })
 }
 
+/// A compact call that fails (or at least exercises the error path): a complete, stride-spaced
+/// sibling group of bit patterns that belong to no face, preceded by one valid cell. Whatever it
+/// returns, it must not change what the next call on this thread returns.
+pub fn poison_compact(seed: u64) {
+    let res = 2 + (seed % 27) as i32; // 2..=28
+    let stride = 1u64 << (2 * (30 - res) as u32);
+    let marker = stride >> 1;
+    let base = (60u64 << 58) | ((seed >> 8) & ((1u64 << 58) - 1) & !(4 * stride - 1)) | marker;
+    let valid = codec::encode(&Cell { res: 1, face: (seed % 12) as u8, quintant: (seed % 5) as u8, pos: 0 });
+    let ids = [valid, base, base + stride, base + 2 * stride, base + 3 * stride];
+    let _ = a5::compact(&ids);
+}
+
 pub fn check_script(s: &SetScript, st: &mut Stats) -> Result<(), String> {
+    if s.perm_seed % 4 == 1 {
+        poison_compact(s.perm_seed >> 2);
+        st.hit("failing-compact-call-first");
+    }
     let b = sets::build(s);
     let input_ids: Vec<u64> = b.input.iter().map(codec::encode).collect();
     let out = a5::compact(&input_ids).map_err(|e| format!("compact({}) failed: {}", fmt_ids(&input_ids), e))?;
